@@ -565,7 +565,7 @@ def r_taint_index(ctx, extra=None):
         fa = ctx.fa(f)
         for p in fa.paths:
             for e in p.events:
-                if e.kind == "call" and e.d["fn"].endswith("::chunks") and len(e.d["args"]) == 2 and tn.tainted(fa, e.d["args"][1]):
+                if e.kind == "call" and e.d["fn"].endswith(("::chunks", "::chunks_exact", "::rchunks", "::chunks_mut", "::chunks_exact_mut")) and len(e.d["args"]) == 2 and tn.tainted(fa, e.d["args"][1]):
                     key = (f["path"], e.node.get("id"))
                     seen[key] = (False, "chunk size is input-derived (chunks(0) panics)", e, f["path"], "chunks")
                 if e.kind != "index":
